@@ -46,8 +46,10 @@ type peerSpec struct {
 	reach bool
 	gen   func(from uint64) []elem
 	kind  string // description for reports: honest, stall, close, badsig, ...
-	// stalls: the stream contains a Stall element (for the monitor's premise only)
-	honest bool
+	// for the monitor's premises only: serves the honest chain from any round; may keep the stream
+	// open without sending (any Stall element)
+	honest   bool
+	mayStall bool
 }
 
 // call is what the client recorded about one SyncChain call
